@@ -540,24 +540,23 @@ def model_line(world, run, all_imgs):
         payload = 'd=%d' % world.member[run['doc']]
     else:
         payload = 'z=' + pairs(world.entries)
-    fs = '.'
+    fs = pairs([('/R/' + p, b) for p, b in world.files]) or '.'
+    cwd = '/'
     if src in ('path', 'bpath'):
         origin = 'p=' + enc('/R/t/' + run['doc'])
-        fs = pairs([('/R/' + p, b) for p, b in world.files]) or '.'
     elif src == 'relpath':
         cwd = '/R/t/' + run['cwd'] if run['cwd'] else '/R/t'
         origin = 'p=' + enc(posixpath.relpath('/R/t/' + run['doc'], cwd))
-        fs = pairs([(posixpath.relpath('/R/' + p, cwd), b) for p, b in world.files]) or '.'
     elif src == 'zpath':
         origin = 'p=' + enc('/R/z/pack.zae')
-        fs = pairs([('/R/' + p, b) for p, b in world.files]) or '.'
     else:
         origin = 'f'
+        fs = '.'
     zf = '-' if run['zf'] is None else '=' + enc(run['zf'])
     table = loader_table(world, run)
     ld = '-' if table is None else '+' + pairs(sorted(table.items()))
     imgs = ','.join(enc(p) for p in all_imgs) or '.'
-    return 'case %s %s %s %s %s %s %s' % (origin, zf, ld, run['ignore'], fs, payload, imgs)
+    return 'case %s %s %s %s %s %s %s %s' % (origin, zf, ld, run['ignore'], enc(cwd), fs, payload, imgs)
 
 
 def parse_answer(ans):
@@ -679,7 +678,7 @@ def oracle(world, run, res):
         if acc != want:
             got = acc if acc.startswith(('raw:', 'r')) or acc == 'e' else 'data'
             exp_s = want if want in ('e', 'rBrokenRef') else 'data'
-            return ('aux:%s:%s:%s->%s' % (src, kind, exp_s, got),
+            return ('aux:%s:%s' % (kind, got) if got.startswith('raw:') else 'aux:%s:%s:%s->%s' % (src, kind, exp_s, got),
                     'document %r loaded from %s (loader=%s, ignore=%s): image path %r should give %s but the first '
                     'CImage.data access gave %s' % (member, src, table is not None, IGNORES[ig], path,
                                                    _say(world, want), _say(world, acc)))
@@ -841,9 +840,9 @@ def path_stream(rng, n):
     return lines, want
 
 
-MALFORMED = ['', 'select', 'norm', 'norm a b', 'join a', 'case f', 'case f - - . . d=x .', 'case q - - . . d=1 .',
-             'case f - - Q . d=1 .', 'case f - - . . z=a .', 'case f - - . . z=a:b .', 'norm %4', 'norm %zz', 'select ? a',
-             'frobnicate 1 2', 'aux a', 'case f - +a . . d=1 .', 'dirname']
+MALFORMED = ['', 'select', 'norm', 'norm a b', 'join a', 'case f', 'case f - - . / . d=x .', 'case q - - . / . d=1 .',
+             'case f - - Q / . d=1 .', 'case f - - . / . z=a .', 'case f - - . / . z=a:b .', 'norm %4', 'norm %zz', 'select ? a',
+             'frobnicate 1 2', 'aux a', 'case f - +a . / . d=1 .', 'dirname', 'case f - - . . d=1 .']
 
 
 # ----------------------------------------------------------------------------- run / replay
